@@ -9,10 +9,10 @@ package quorum
 //@   modifies Store
 //@   requires ns != nil && ns.tx != nil
 //@   ghost var wit bool = false
-//@   ghost var op [20]byte
-//@   set after "op, err := node_manager.GetCurConOperator(ns)" : op := op
+//@   ghost var gop [20]byte
+//@   set after "op, err := node_manager.GetCurConOperator(ns)" : gop := op
 //@   set after "err = utils.ValidateOwner(ns, op)" : wit := err == nil
 //@   -- the address that must witness is the consensus operator just derived from the current validators
-//@   callsite[c18-operator] ValidateOwner#1 requires arg1 == op
+//@   callsite[c18-operator] ValidateOwner#1 requires arg1 == gop
 //@   -- installing a trust root changes storage only with the operator's witness
 //@   ensures[c18-witness] Store != old(Store) ==> wit
